@@ -136,6 +136,7 @@ type pdiff struct {
 	Path   string
 	A, B   string
 	Dollar bool
+	Order  bool // same elements, different order
 }
 
 type differ struct {
@@ -212,6 +213,19 @@ func (d *differ) walk(a, b reflect.Value, field, path string, depth int) {
 		if a.Len() != b.Len() {
 			d.add(field, path, a, b)
 			return
+		}
+		if a.Type().Elem().Kind() == reflect.String && !reflect.DeepEqual(a.Interface(), b.Interface()) {
+			x, y := make([]string, a.Len()), make([]string, b.Len())
+			for i := range x {
+				x[i], y[i] = a.Index(i).String(), b.Index(i).String()
+			}
+			sort.Strings(x)
+			sort.Strings(y)
+			if reflect.DeepEqual(x, y) {
+				d.add(field, path, a, b)
+				d.diffs[len(d.diffs)-1].Order = true
+				return
+			}
 		}
 		for i := 0; i < a.Len(); i++ {
 			d.walk(a.Index(i), b.Index(i), field, fmt.Sprintf("%s[%d]", path, i), depth)
@@ -453,6 +467,8 @@ func realRoundTrip(raw json.RawMessage) any {
 		k := "roundtrip:" + d.Field + ":" + a.Format
 		if d.Dollar {
 			k = "roundtrip-dollar:" + d.Field + ":" + a.Format
+		} else if d.Order {
+			k = "roundtrip-order:" + d.Field + ":" + a.Format
 		}
 		var all []string
 		for _, x := range ds {
